@@ -80,15 +80,69 @@ bool FnEmitter::isPrivateAddr(const Value* P) {
   if (auto* GV = dyn_cast<GlobalVariable>(B)) {
     if (GV->isThreadLocal()) return true;
     if (GV->isConstant()) return true;
-    for (auto& pre : T.ghostPrefixes) if (GV->getName().startswith(pre)) return true;
+    for (auto& pre : T.ghostPrefixes) if (GV->getName().contains(pre)) return true;
   }
   return false;
+}
+
+static const MDNode* tbaaAccessType(const Instruction& I) {
+  if (const MDNode* N = I.getMetadata(LLVMContext::MD_tbaa))
+    if (N->getNumOperands() >= 3)
+      if (auto* AT = dyn_cast<MDNode>(N->getOperand(1))) return AT;
+  return nullptr;
+}
+static bool isCharTbaa(const MDNode* AT) {
+  if (AT->getNumOperands() >= 1)
+    if (auto* S = dyn_cast<MDString>(AT->getOperand(0))) return S->getString() == "omnipotent char";
+  return false;
+}
+
+// A plain load is not a scheduling point if no thread body of the module contains a store that may alias it
+// (TBAA access types, the same type-based no-alias assumption the compiler makes): data that is only read
+// while the threads run cannot be observed differently under any interleaving.
+void Translator::computeStoredTypes() {
+  storedTypesKnown = true;
+  for (const Function& F : M) {
+    if (!F.getName().startswith("vf_thread_") || F.isDeclaration()) continue;
+    for (const BasicBlock& BB : F)
+      for (const Instruction& I : BB) {
+        bool writes = false;
+        if (auto* S = dyn_cast<StoreInst>(&I)) {
+          const Value* B = S->getPointerOperand()->stripPointerCasts();
+          if (isa<AllocaInst>(B)) continue;
+          writes = true;
+        } else if (isa<AtomicRMWInst>(I) || isa<AtomicCmpXchgInst>(I))
+          writes = true;
+        else if (auto* CB = dyn_cast<CallBase>(&I)) {
+          if (auto* c = dyn_cast<Function>(CB->getCalledOperand()->stripPointerCasts()))
+            if (c->isIntrinsic() && (c->getIntrinsicID() == Intrinsic::memcpy || c->getIntrinsicID() == Intrinsic::memmove ||
+                                     c->getIntrinsicID() == Intrinsic::memset || c->getIntrinsicID() == Intrinsic::memcpy_inline))
+              storedUnknown = true;
+        }
+        if (!writes) continue;
+        const MDNode* AT = tbaaAccessType(I);
+        if (!AT || isCharTbaa(AT)) {
+          // atomics from <atomic> carry no TBAA: remember the value type instead
+          Type* VT = isa<StoreInst>(I) ? cast<StoreInst>(I).getValueOperand()->getType() : I.getOperand(1)->getType();
+          if (isa<StoreInst>(I) && !cast<StoreInst>(I).isAtomic()) storedUnknown = true;
+          else storedAtomicTypes.insert(VT);
+        } else
+          storedTypes.insert(AT);
+      }
+  }
 }
 
 FnEmitter::Vis FnEmitter::visibility(const Instruction& I) {
   if (auto* L = dyn_cast<LoadInst>(&I)) {
     if (L->isAtomic() || L->isVolatile()) return isPrivateAddr(L->getPointerOperand()) ? INVISIBLE : VIS_READ;
     if (isPrivateAddr(L->getPointerOperand())) return INVISIBLE;
+    if (T.plainVisible && T.storedTypesKnown && !T.storedUnknown) {
+      const MDNode* AT = tbaaAccessType(I);
+      if (AT && !isCharTbaa(AT) && !T.storedTypes.count(AT) && !T.storedAtomicTypes.count(L->getType())) {
+        T.readOnlyLoads++;
+        return INVISIBLE;
+      }
+    }
     return T.plainVisible ? VIS_READ : INVISIBLE;
   }
   if (auto* S = dyn_cast<StoreInst>(&I)) {
@@ -278,12 +332,12 @@ void Translator::emitScheduler(raw_ostream& os, const Function& F) {
      << "    VF_ASSUME(t < n && !vf_done[t]);\n"
      << "    vf_cur = t;\n"
      << "    switch (t) {\n";
-  for (int k = 0; k < nthreads; ++k) os << "    case " << k << ": " << name << "__t" << k << "(); break;\n";
+  for (int k = 0; k < nthreads; ++k) os << "    case " << k << ": if (n > " << k << ") { vf_cur = " << k << "; " << name << "__t" << k << "(); } break;\n";
   os << "    }\n  }\n"
      << "  for (t = 0; t < " << nthreads << "; ++t) live += !vf_done[t];\n"
      << "  if (live) {\n    vf_probe_mode = 1;\n";
   for (int k = 0; k < nthreads; ++k)
-    os << "    if (!vf_done[" << k << "]) { vf_cur = " << k << "; vf_blocked[" << k << "] = 0; vf_enabled[" << k << "] = 0; " << name
+    os << "    if (n > " << k << " && !vf_done[" << k << "]) { vf_cur = " << k << "; vf_blocked[" << k << "] = 0; vf_enabled[" << k << "] = 0; " << name
        << "__t" << k << "(); nblocked += (vf_blocked[" << k << "] && !vf_enabled[" << k << "]); }\n";
   os << "    VF_ASSERT(nblocked < live, \"deadlock: every unfinished thread waits on a condition no thread can change\");\n"
      << "    VF_BOUND_ASSERT(stopped, \"scheduler step bound too small for a complete execution\");\n"
@@ -395,6 +449,7 @@ void Translator::emitModule(raw_ostream& os, const std::vector<std::string>& roo
         if (auto* CB = dyn_cast<CallBase>(&I))
           if (auto* c = dyn_cast<Function>(CB->getCalledOperand()->stripPointerCasts()))
             if (c->getName() == "longjmp" || c->getName() == "_longjmp" || c->getName() == "siglongjmp" || c->getName() == "__longjmp_chk") usesUnwind = true;
+  if (nthreads > 0) computeStoredTypes();
   std::string bodies, gdefs, gdecls, protos;
   raw_string_ostream bo(bodies), gdo(gdefs), gdc(gdecls), po(protos);
   for (auto* F : reachFOrder) {
@@ -467,6 +522,7 @@ void Translator::writeSidecar(raw_ostream& os, const std::vector<std::string>& r
   for (auto& e : externsUsed) { if (!f) os << ", "; f = false; os << q(e); }
   os << "],\n \"notes\": [";
   f = true;
+  if (readOnlyLoads) spinNotes.push_back(std::to_string(readOnlyLoads) + " plain loads are not scheduling points: no store in any thread body may alias them (TBAA)");
   for (auto& e : spinNotes) { if (!f) os << ", "; f = false; os << q(e); }
   os << "]\n}\n";
 }
@@ -551,6 +607,10 @@ int main(int argc, char** argv) {
   if (roots.empty())
     for (Function& F : *M)
       if (!F.isDeclaration() && (F.getName().startswith("ob_") || isThreadEntry(&F))) roots.push_back(F.getName().str());
+  if (Threads > 0)
+    for (Function& F : *M)
+      if (!F.isDeclaration() && isThreadEntry(&F) && std::find(roots.begin(), roots.end(), F.getName().str()) == roots.end())
+        roots.push_back(F.getName().str());
   Translator T(*M);
   T.nthreads = Threads;
   T.plainVisible = !PlainInvisible;
